@@ -26,14 +26,14 @@ Proof. exact read_M. Qed.
 Print Assumptions C08_expand_M.
 
 (* a nI b : a, n values, b; the t-th inserted value is a + (b - a) t / (n + 1) *)
-Theorem C08_expand_I : forall a b n, qzero b = false ->
+Theorem C08_expand_I : forall a b n,
   parse_list [TNum a; TInt n; TNum b] = POk [PSc KI (VQ a :: expand_interpolate a b (cnt n) ++ [VQ b]) false] /\
   List.length (expand_interpolate a b (cnt n)) = cnt n /\
   forall t, (t < cnt n)%nat ->
     exists x, nth_error (expand_interpolate a b (cnt n)) t = Some (VQ x) /\
               x == a + (b - a) * inject_Z (Z.of_nat (S t)) / inject_Z (Z.of_nat (S (cnt n))).
 Proof.
-  intros a b n H. split; [apply read_I; exact H|]. split; [apply expand_interpolate_length|].
+  intros a b n. split; [apply read_I|]. split; [apply expand_interpolate_length|].
   intros t Ht. apply expand_interpolate_nth. exact Ht.
 Qed.
 Print Assumptions C08_expand_I.
@@ -60,16 +60,22 @@ Theorem C08_expand_list : forall ts ns,
 Proof. exact expand_list_spec. Qed.
 Print Assumptions C08_expand_list.
 
-(* ... but the parser does not accept every list the manual gives a meaning to: *)
-Theorem C08_read_three_chained_refuted :
-  exists ts out, spec_expand ts = Some out /\ parse_list ts = PErr PCrash.
-Proof. exact read_total_refuted. Qed.
-Print Assumptions C08_read_three_chained_refuted.
+(* ... and the parser accepts every list the manual gives a meaning to - three and more chained shortcuts,
+   interpolations that end at zero - unless a jump over nothing ('0J') stands directly in front of a shortcut *)
+Theorem C08_read_total_partial : forall ts out,
+  spec_expand ts = Some out -> no_zero_jump ts = true -> exists ns, parse_list ts = POk ns.
+Proof. exact read_total. Qed.
+Print Assumptions C08_read_total_partial.
 
-Theorem C08_read_interpolate_to_zero_refuted :
-  exists ts out, spec_expand ts = Some out /\ parse_list ts = PErr PReject.
-Proof. exact read_zero_end_refuted. Qed.
-Print Assumptions C08_read_interpolate_to_zero_refuted.
+Theorem C08_read_total_refuted :
+  exists ts out, spec_expand ts = Some out /\ parse_list ts = PErr PCrash.
+Proof. exact read_zero_jump_refuted. Qed.
+Print Assumptions C08_read_total_refuted.
+
+Example C08_read_total_nonvacuous :
+  spec_expand [TNum 1; TRep (Some 2%nat); TRep None; TRep (Some 3%nat); TInt (Some 2%nat); TNum 0] <> None /\
+  no_zero_jump [TNum 1; TRep (Some 2%nat); TRep None; TRep (Some 3%nat); TInt (Some 2%nat); TNum 0] = true.
+Proof. split; [vm_compute; discriminate|reflexivity]. Qed.
 
 (* ------------------------------------------------------------------ consumption *)
 (* consume_edge_node keeps the invariant of the kind: a repeat holds values each isclose to its neighbour, an
